@@ -179,6 +179,14 @@ pub fn c20_cli(run: &mut Run, tier: Tier) -> CliC20 {
                                     if let Some(f) = fin {
                                         opt.push(format!("--kt-finish={}", f));
                                     }
+                                    // every other kept case also with debug and with trace logging
+                                    if k % 2 == 0 {
+                                        for flag in ["-v", "-vv"].iter() {
+                                            let mut o2 = opt.clone();
+                                            o2.push(flag.to_string());
+                                            cases.push(CliArgs { group: g.to_string(), shape: shape.iter().map(|s| s.to_string()).collect(), potential: Some(pot.to_string()), replications: reps, opt: o2 });
+                                        }
+                                    }
                                     cases.push(CliArgs {
                                         group: g.to_string(),
                                         shape: shape.iter().map(|s| s.to_string()).collect(),
